@@ -25,7 +25,7 @@ CAUSES = {
 
 CAUSES["C02"] = [
     (("types/int_then_float", "types/float_in_branch", "types/float_in_loop", "types/aug_float", "types/aug_truediv",
-      "types/global_int_loop_float", "types/global_acc_float", "types/param_copy_rebound", "types/param_rebound_in_branch"),
+      "types/global_int_loop_float", "types/global_acc_float", "types/param_copy_rebound", "types/param_rebound_in_branch", "types/loop_int_then_aug_float"),
      "the first assignment fixes the C type: a name first bound to an int keeps `int` when a float is assigned later (value truncated)"),
     (("types/branch_first_int",), "a variable hoisted out of if/else takes the type of the first branch (int) although the other branch assigns a float"),
     (("types/int_div_result", "types/local_float"), "the result of int / int is inferred as int (Python: float)"),
@@ -74,7 +74,7 @@ CAUSES["C06"] = [
 ]
 
 
-CAUSES["C06"].append((("compile/types/param_two_sites",),
+CAUSES["C06"].append((("compile/types/param_two_sites", "compile/types/recursive_float_param"),
                       "a helper called with an int and with a float literal is emitted as int/float overloads; the call with a "
                       "double literal (`scale(0.5)`) is then ambiguous in C++ and the sketch does not compile"))
 
